@@ -132,6 +132,29 @@ class HTMLTranslator(html4css1.HTMLTranslator):
         else:
             return super().should_be_compact_paragraph(node)  # type: ignore[no-any-return]
 
+    # A docstring is a fragment, not a standalone document: docutils promotes a lone top-level
+    # section title (and a lone sub-section title below it) to document title and subtitle, which
+    # the base class moves out of the body. Keep them in the body, as the headings they were.
+    def visit_title(self, node: nodes.Node) -> None:
+        if isinstance(node.parent, nodes.document):
+            level = self.section_level + 1
+            self.body.append(self.starttag(node, f'h{level}', ''))
+            self.context.append(f'</h{level}>\n')
+        else:
+            super().visit_title(node)
+
+    def visit_subtitle(self, node: nodes.Node) -> None:
+        if isinstance(node.parent, nodes.document):
+            self.body.append(self.starttag(node, f'h{self.section_level + 2}', ''))
+        else:
+            super().visit_subtitle(node)
+
+    def depart_subtitle(self, node: nodes.Node) -> None:
+        if isinstance(node.parent, nodes.document):
+            self.body.append(f'</h{self.section_level + 2}>\n')
+        else:
+            super().depart_subtitle(node)
+
     def visit_document(self, node: nodes.Node) -> None:
         pass
 
